@@ -292,6 +292,7 @@ static void GC_Mark_And_Recurse(void* _gc, void* ptr) {
   /* A registered object is recursed into when it is first marked.
   ** Only objects the collector does not know (embedded or raw) are
   ** scanned here, otherwise cycles would never terminate. */
+  if (ptr is NULL) { return; }
   if (not GC_Mark_Item(gc, ptr)) {
     GC_Recurse(gc, ptr);
   }
